@@ -403,7 +403,11 @@ def lexGoCode (l : L) : L × St :=
 
 def lexTemplate (l : L) : L × St :=
   let l := l.acceptUntil Gen.lexTemplate_acceptUntil0
-  if l.s == kwGoht then (l, .gohtStart) else (l, .goCode)
+  -- the keyword introduces a template only when a blank follows it on the same line
+  if l.s == kwGoht then
+    let (l, c) := l.peek
+    if c == 32 then (l, .gohtStart) else (l, .goCode)
+  else (l, .goCode)
 
 /-- the first half of `lexGohtStart`: capture the declaration up to its closing parenthesis -/
 def gohtStartSig (l : L) : Sum L L :=
